@@ -82,6 +82,21 @@ COMMON_TB = [
 ]
 
 PROPS = {
+    "C06": {
+        "harness": "c06", "driver": "c06",
+        "lean_modules": ["BleveModel.Props.C06"],
+        "rule": ("seeded synthetic match streams (small score spaces, colliding ids, multi-valued / missing / numeric / "
+                 "date / string field terms incl. the HighTerm/LowTerm sentinels) fed through a stub searcher and reader into "
+                 "the real TopNCollector for sort orders of 1-4 keys (score, id, field x type x mode x missing x direction), "
+                 "sizes/skips straddling the slice/heap store switch (and the preallocation cap in the thorough tier), and "
+                 "search-after from hits of the full run; hits (by hit number), Total and MaxScore compared with the Lean "
+                 "model. non-trivial = streams longer than the page"),
+        "trusted_base": COMMON_TB + ["container/heap is a priority queue for a strict total Less (heap store modelled extensionally)",
+                                     "strconv.ParseFloat/FormatFloat and time RFC3339Nano round trip (search-after key encoding)"],
+        "assumptions": ["scores are not NaN (boost 0 gives NaN scores: excluded point, DESIGN.md C06)", LEVEL_NOTE],
+        "floors": {"coll": 300, "after": 100},
+        "thorough_shards": 16,
+    },
     "C07": {
         "harness": "c07", "driver": "c07",
         "lean_modules": ["BleveModel.Props.C07"],
